@@ -768,22 +768,12 @@ func runC18(r *Run) {
 	if f := r.fn(P, pkgPatchVal, "validateServices"); f != nil {
 		ff := r.E.Facts(f, core.Ctx{})
 		// duplicate id detection: error on hit
-		ok := false
-		for _, ri := range ff.Returns() {
-			if ri.Class == core.RetFail && core.HasFact(ri.Facts, "hit(_, _)") {
-				ok = true
-			}
-		}
+		ok := hitLeadsToError(ff)
 		r.R.Check(ok, P+".limits.service.unique", "E2: a service id seen before in the same patch is an error", core.FuncName(f), r.where(f), "ids must be unique within their patch", "error under hit(ids, id)", "no failing return under a duplicate id")
 	}
 	if f := r.fn(P, pkgPatchVal, "validatePublicKeys"); f != nil {
 		ff := r.E.Facts(f, core.Ctx{})
-		ok := false
-		for _, ri := range ff.Returns() {
-			if ri.Class == core.RetFail && core.HasFact(ri.Facts, "hit(_, _)") {
-				ok = true
-			}
-		}
+		ok := hitLeadsToError(ff)
 		r.R.Check(ok, P+".limits.key.unique", "E2: a key id seen before in the same patch is an error", core.FuncName(f), r.where(f), "ids must be unique within their patch", "error under hit(ids, id)", "no failing return under a duplicate id")
 	}
 
@@ -1204,26 +1194,25 @@ func onlyErrors(ff *core.FnFacts, start *ssa.BasicBlock) bool {
 	for _, ri := range ff.Returns() {
 		rets[ri.Ret] = ri.Class
 	}
-	seen := map[*ssa.BasicBlock]bool{}
-	work := []*ssa.BasicBlock{start}
 	n := 0
-	for len(work) > 0 {
-		x := work[len(work)-1]
-		work = work[:len(work)-1]
-		if seen[x] {
-			continue
-		}
-		seen[x] = true
+	good := true
+	visit := func(x *ssa.BasicBlock) bool {
 		if ret, ok := x.Instrs[len(x.Instrs)-1].(*ssa.Return); ok {
 			n++
 			if rets[ret] != core.RetFail {
-				return false
+				good = false
 			}
-			continue
 		}
-		work = append(work, x.Succs...)
+		return false
 	}
-	return n > 0
+	visit(start)
+	// the way of arrival matters where an error assigned on this edge is tested after a join
+	prefix := []*ssa.BasicBlock{start}
+	if len(start.Preds) == 1 {
+		prefix = []*ssa.BasicBlock{start.Preds[0], start}
+	}
+	ff.WalkFeasible(prefix, nil, visit)
+	return good && n > 0
 }
 
 // checkSeenSets (C18, ids unique within a patch): in a loop that rejects an
@@ -1543,4 +1532,21 @@ func (r *Run) checkKeyTypeTables(P string) {
 func calleeKeyOf(r *Run, c *ssa.CallCommon) string {
 	k, _, _ := r.P.CalleeKey(c)
 	return k
+}
+
+// hitLeadsToError: the function has an edge on which a map lookup found its key, and only error returns lie behind it.
+func hitLeadsToError(ff *core.FnFacts) bool {
+	ok := false
+	for _, b := range ff.Fn.Blocks {
+		for _, s := range b.Succs {
+			for _, fc := range ff.EdgeFacts(b, s) {
+				if fc.Kind == "hit" {
+					if onlyErrors(ff, s) {
+						ok = true
+					}
+				}
+			}
+		}
+	}
+	return ok
 }
